@@ -29,7 +29,7 @@ _tables: Dict[str, DocTable] = {}
 
 def replay(rec: Dict[str, Any]) -> List[Tuple[str, Dict[str, Any], str]]:
     u = rec["universe"]
-    return compare_eval(rec, _tables[u], styles=(0, 1, 2, 3), float_variants=u.startswith("cmp") or u == "functions")
+    return compare_eval(rec, _tables[u], styles=(0, 1, 2, 3, 4), float_variants=u.startswith("cmp") or u == "functions")
 
 
 def run(chk: Check, tier: str, seed: int) -> None:
@@ -42,7 +42,7 @@ def run(chk: Check, tier: str, seed: int) -> None:
     ncand = 0
     for rec, res in zip(recs, core.pmap(replay, recs)):
         tbl = _tables[rec["universe"]]
-        chk.traces += 4 * len(tbl)
+        chk.traces += 5 * len(tbl)
         if any(rec["res"]):
             chk.nontrivial.add(json.dumps(rec["q"], sort_keys=True))
         for sig, case, what in res:
